@@ -431,6 +431,127 @@ def static_flags_part(ctx, exe, mexe, d):
     return len(good)
 
 
+# ---- the generated parse() / lexerdef() text = the module of theories/C13/PipelineModel.v ----
+
+ENTRY_TEXT = {
+    "G": ".parse_actions(lexer,&actions,",
+    "U": ".parse_actions(lexer,&actions,",
+    "O": ".parse_map(lexer,&|lexeme|Node::Term{lexeme},&|ridx,nodes|Node::Nonterm{ridx,nodes})",
+    "N": ".parse_map(lexer,&|_|(),&|_,_|()).1",
+}
+RECONSTITUTE_ARM = ("::lrpar::ctbuilder::SerialisationFormat::%s=>{::lrpar::ctbuilder::_reconstitute(__GRM_DATA,__STABLE_DATA,"
+                    "::lrpar::ctbuilder::wincode::config::Configuration::default().with_%s_encoding())}")
+
+
+def squeeze(text):
+    """layout-free form of a generated file: no white space, no trailing comma before a closing bracket
+    (the pretty-printer adds one when it breaks an argument list over lines)"""
+    return re.sub(r",(?=[)\]}])", "", re.sub(r"\s+", "", text))
+
+
+def embedded_bytes(T, name):
+    m = re.findall(r"const%s:&\[u8\]=&\[((?:\d+u8,?)*)\];" % name, T)
+    if len(m) != 1:
+        return None
+    return bytes(int(x[:-2]) for x in m[0].split(",") if x)
+
+
+def module_text_facts(T, yk, rec, ser):
+    """the facts P1-P3 of PipelineModel.v on the whitespace-free text of a generated parser module;
+    returns (list of broken facts, __GRM_DATA bytes, __STABLE_DATA bytes)"""
+    bad = []
+    kind = "None" if rec == "N" else "CPCTPlus"                 # default: RecoveryKind::CPCTPlus
+    fmt = "FixedSizeInteger" if ser == "F" else "VariableSizedInteger"   # default: VariableSizedInteger
+    gb, sb = embedded_bytes(T, "__GRM_DATA"), embedded_bytes(T, "__STABLE_DATA")
+    if gb is None or sb is None:
+        bad.append("P1: not exactly one `const __GRM_DATA: &[u8]` / `const __STABLE_DATA: &[u8]` byte-array constant")
+    # each constant: its definition + one use per arm of __lrpar_parser_data, nothing else
+    if T.count("__GRM_DATA") != 3 or T.count("__STABLE_DATA") != 3 or T.count("_reconstitute(") != 2:
+        bad.append("P1: __GRM_DATA / __STABLE_DATA are used elsewhere than as the two arguments of the two _reconstitute calls")
+    for f, enc in (("FixedSizeInteger", "fixint"), ("VariableSizedInteger", "varint")):
+        if T.count(RECONSTITUTE_ARM % (f, enc)) != 1:
+            bad.append("P2: the %s arm of __lrpar_parser_data is not `_reconstitute(__GRM_DATA, __STABLE_DATA, ..with_%s_encoding())`" % (f, enc))
+    if T.count("const__SERIALISATION_FORMAT:::lrpar::ctbuilder::SerialisationFormat=::lrpar::ctbuilder::SerialisationFormat::%s;" % fmt) != 1 \
+            or T.count("const__SERIALISATION_FORMAT") != 1:
+        bad.append("P2: __SERIALISATION_FORMAT is not the configured format %s" % fmt)
+    if T.count("DATA.get_or_init(||{match__SERIALISATION_FORMAT{") != 1 or T.count("__lrpar_parser_data()") != 2:
+        bad.append("P2/P3: __lrpar_parser_data is not `DATA.get_or_init(|| match __SERIALISATION_FORMAT {..})` called once (by parse)")
+    head = "let__data=__lrpar_parser_data();letgrm=__data.grm();letstable=__data.stable();"
+    call = "::lrpar::RTParserBuilder::new(grm,stable).recoverer(::lrpar::RecoveryKind::%s)%s" % (kind, ENTRY_TEXT[yk])
+    if T.count(head) != 1 or T.count("RTParserBuilder") != 1 or T.count(".recoverer(") != 1:
+        bad.append("P3: parse() does not take grm/stable from __lrpar_parser_data() or builds more/less than one RTParserBuilder")
+    elif T.count(call) != 1:
+        bad.append("P3: parse() does not call `RTParserBuilder::new(grm, stable).recoverer(RecoveryKind::%s)%s..`" % (kind, ENTRY_TEXT[yk][:14]))
+    else:
+        i, j = T.index(head), T.index(call)
+        if not (T.index("pubfnparse") < i < j):
+            bad.append("P3: the RTParserBuilder call is not in the body of parse() after the data look-up")
+    return bad, gb, sb
+
+
+def lexer_text_facts(T):
+    """fact L1 of PipelineModel.v on the whitespace-free text of a generated lexer module"""
+    bad = []
+    n = T.count("Rule::new(")
+    if n == 0 or T.count("Rule::new(::lrlex::unstable_api::InternalPublicApi,") != n or T.count(",&lex_flags).unwrap()") != n:
+        bad.append("L1: a Rule::new of lexerdef() is not built with `&lex_flags` (and unwrapped)")
+    if T.count("letmutlex_flags=::lrlex::DEFAULT_LEX_FLAGS;") != 1 or T.count("letlex_flags=lex_flags;") != 1 \
+            or T.count("letlex_flags") != 1 or T.count("letmutlex_flags") != 1:
+        bad.append("L1: `lex_flags` is not the one variable the twelve quoted options are folded into")
+    if T.count("letstart_states:Vec<StartState>=vec![") != 1 or T.count("letrules=vec![") != 1 \
+            or T.count("::lrlex::LRNonStreamingLexerDef::from_rules(start_states,rules)}") != 1:
+        bad.append("L1: lexerdef() does not return `LRNonStreamingLexerDef::from_rules(start_states, rules)`")
+    return bad
+
+
+def static_module_part(ctx, d, accepted):
+    """Every generated module: the facts about its TEXT that the pipeline theorems (C13_ct_equals_rt,
+    C13_ct_lexerdef_equals_rt) assume — P1-P3, L1 by reading the text, P4 by comparing the embedded
+    constants with the serialisation (harness c14: same wincode calls as ctbuilder) of the grammar and
+    table the RUN-TIME functions build from the same .y source, in the configured format."""
+    exe14 = core.build_harness("c14")
+    lines = []
+    for pr in accepted:
+        enc = "fix" if pr['settings']['ser'] == "F" else "var"
+        lines.append("%s %s 32 %s" % (pr['yk'], hx(c13gen.render_y(pr)), enc))
+    rt = core.run_lines([exe14], lines) if lines else []
+    ok = True
+    nrep = 0
+    for pr, r in zip(accepted, rt):
+        s = pr['settings']
+        T = squeeze(open("%s/%s.y.rs" % (d, pr['name'])).read())
+        L = squeeze(open("%s/%s.l.rs" % (d, pr['name'])).read())
+        bad, gb, sb = module_text_facts(T, pr['yk'], s['rec'], s['ser'])
+        bad += lexer_text_facts(L)
+        secs = dict((x.split(" ", 1) + [""])[:2] for x in r.split(" # "))
+        if "BG" not in secs or "BS" not in secs:
+            bad.append("P4: the run-time serialisation of the grammar/table is not available (%s)" % r[:60])
+        elif gb is not None and sb is not None:
+            if gb != bytes.fromhex(secs["BG"]):
+                bad.append("P4: __GRM_DATA is not the %s serialisation of the grammar built at run time from the same source" %
+                           ("fixint" if s['ser'] == "F" else "varint"))
+            if sb != bytes.fromhex(secs["BS"]):
+                bad.append("P4: __STABLE_DATA is not the %s serialisation of the state table built at run time from the same source" %
+                           ("fixint" if s['ser'] == "F" else "varint"))
+        ctx.count("static_modules")
+        ctx.case("module-text %s %s" % (pr['name'], sorted(s.items())), True,
+                 {"kind": "module-text", "yk": pr['yk'], "settings": s, "grm_bytes": len(gb or b""), "stable_bytes": len(sb or b""),
+                  "facts": "P1-P4, L1 hold"} if not bad and ctx.hist.get("static_modules", 0) <= 1 else None)
+        if bad:
+            ok = False
+            ctx.count("static_module_mismatches")
+            nrep += 1
+            if nrep > 2:
+                continue
+            ctx.violation({"kind": "correspondence-only",
+                           "what": "the text of a generated module is not the module of theories/C13/PipelineModel.v: the theorems "
+                                   "C13_ct_equals_rt / C13_ct_lexerdef_equals_rt (generated parse()/lexerdef() = the run-time library on "
+                                   "the same objects) no longer apply to it",
+                           "broken_facts": bad, "yacckind": pr['yk'], "settings": s,
+                           "grammar": c13gen.render_y(pr), "lexer": c13gen.render_l(pr)}, no_input=True)
+    return ok
+
+
 def plan(ctx):
     """programs of this run: every family under every yacc kind first, then random ones"""
     rng = ctx.rng
@@ -493,6 +614,27 @@ def tamper(d, progs, how):
             src = open(yp).read()
             src = re.sub(r"&__gt_arg_1(\d)\b", r"&__gt_arg_1", src)
             open(yp, "w").write(src)
+        if how == "recoverer" and os.path.exists(yp):
+            src = open(yp).read()
+            src = src.replace("RecoveryKind::CPCTPlus", "RecoveryKind::TMP").replace("RecoveryKind::None", "RecoveryKind::CPCTPlus").replace("RecoveryKind::TMP", "RecoveryKind::None")
+            open(yp, "w").write(src)
+        if how == "swapdata" and os.path.exists(yp):
+            src = open(yp).read()
+            src = re.sub(r"__GRM_DATA,(\s*)__STABLE_DATA,", r"__STABLE_DATA,\1__GRM_DATA,", src)
+            open(yp, "w").write(src)
+        if how == "format" and os.path.exists(yp):
+            src = open(yp).read()
+            src = re.sub(r"(const __SERIALISATION_FORMAT[^=]*=[^;]*::)(FixedSizeInteger|VariableSizedInteger);",
+                         lambda m: m.group(1) + ("VariableSizedInteger" if m.group(2) == "FixedSizeInteger" else "FixedSizeInteger") + ";", src)
+            open(yp, "w").write(src)
+        if how == "databyte" and os.path.exists(yp):
+            src = open(yp).read()
+            src = re.sub(r"(const __STABLE_DATA: &\[u8\] = &\[\s*)(\d+)u8", lambda m: "%s%du8" % (m.group(1), (int(m.group(2)) + 1) % 256), src)
+            open(yp, "w").write(src)
+        if how == "ruleflags" and os.path.exists(lp):
+            src = open(lp).read()
+            src = src.replace("& lex_flags).unwrap()", "& ::lrlex::DEFAULT_LEX_FLAGS).unwrap()", 1)
+            open(lp, "w").write(src)
         if how == "okerr" and os.path.exists(yp):
             src = open(yp).read()
             src = src.replace("if l.faulty() { Err(l) } else { Ok(l) }", "if l.faulty() { Ok(l) } else { Err(l) }")
@@ -545,6 +687,9 @@ def pipeline_part(ctx, exe, mexe, d):
     flags_ok = static_flags_compare(ctx, mexe, [(pr['name'], "%s/%s.l.rs" % (d, pr['name']), c13gen.effective_flags(pr),
                                                  c13gen.render_l(pr), pr['lex_api']) for pr in accepted])
     ctx.oblige(flags_ok, "flags correspondence (compiled programs)")
+
+    # ---- static: the text of every generated parse() / lexerdef() is what the pipeline theorems assume ----
+    ctx.oblige(static_module_part(ctx, d, accepted), "generated parse()/lexerdef() text (P1-P4, L1 of PipelineModel.v)")
 
     # ---- compile (one cargo invocation per pass, targets in parallel), run ----
     cdir = os.path.join(d, "crate")
